@@ -28,6 +28,7 @@ const (
 
 var UTC = time.UTC
 
+//go:noinline
 func Now() Time {
 	if s := simrt.Current(); s != nil {
 		return s.NowTime()
@@ -35,7 +36,10 @@ func Now() Time {
 	return time.Now()
 }
 
+//go:noinline
 func Since(t Time) Duration { return Now().Sub(t) }
+
+//go:noinline
 func Until(t Time) Duration { return t.Sub(Now()) }
 
 func Unix(sec, nsec int64) Time { return time.Unix(sec, nsec) }
@@ -43,6 +47,7 @@ func Date(year int, month Month, day, hour, min, sec, nsec int, loc *Location) T
 	return time.Date(year, month, day, hour, min, sec, nsec, loc)
 }
 
+//go:noinline
 func Sleep(d Duration) {
 	if simrt.Current() == nil {
 		time.Sleep(d)
@@ -65,6 +70,7 @@ type Timer struct {
 	rt *time.Timer
 }
 
+//go:noinline
 func NewTimer(d Duration) *Timer {
 	if st := simrt.NewTimer(d, nil); st != nil {
 		return &Timer{C: st.C, st: st}
@@ -73,6 +79,7 @@ func NewTimer(d Duration) *Timer {
 	return &Timer{C: rt.C, rt: rt}
 }
 
+//go:noinline
 func AfterFunc(d Duration, f func()) *Timer {
 	if st := simrt.NewTimer(d, f); st != nil {
 		return &Timer{st: st}
@@ -80,8 +87,10 @@ func AfterFunc(d Duration, f func()) *Timer {
 	return &Timer{rt: time.AfterFunc(d, f)}
 }
 
+//go:noinline
 func After(d Duration) <-chan Time { return NewTimer(d).C }
 
+//go:noinline
 func (t *Timer) Stop() bool {
 	if t.st != nil {
 		return t.st.Stop()
@@ -89,6 +98,7 @@ func (t *Timer) Stop() bool {
 	return t.rt.Stop()
 }
 
+//go:noinline
 func (t *Timer) Reset(d Duration) bool {
 	if t.st != nil {
 		return t.st.Reset(d)
